@@ -128,6 +128,8 @@ class Exec(ExecExpr):
                 return self.inline_call(st, q, ty.recv, args, kwargs, node, c)
             raise Unsupported('no contract for callee %s (line %d)' % (q, getattr(node, 'lineno', 0)))
         if isinstance(ty, Ty.TCls) and ty.name:
+            if ty.name in BUILTIN_FUNCS:        # bool(), int(), str(), float(), list(), dict() are classes
+                return BUILTIN_FUNCS[ty.name](self, st, args, kwargs, node)
             return self.instantiate(st, ty.name, args, kwargs, node)
         if isinstance(ty, Ty.TCls):
             # symbolic class (e.g. an exception class picked from a table): only exceptions are supported
